@@ -38,6 +38,8 @@ const (
 	opOpen    = 0x1224
 	opOpenDir = 0x122a
 	opStat    = 0x1230
+	opRead    = 0x1227
+	opCrit    = 0x1225
 
 	szOpen    = 16
 	szOpenDir = 4
@@ -49,6 +51,14 @@ func encode(op uint16, path string) []byte {
 	binary.BigEndian.PutUint16(b[0:], op)
 	binary.BigEndian.PutUint16(b[2:], uint16(len(path)))
 	return append(b, path...)
+}
+
+func encodeRead(op uint16, n uint32, off uint64) []byte {
+	b := make([]byte, 16)
+	binary.BigEndian.PutUint16(b[0:], op)
+	binary.BigEndian.PutUint32(b[4:], n)
+	binary.BigEndian.PutUint64(b[8:], off)
+	return b
 }
 
 // ---------------------------------------------------------------- ledger file system
@@ -132,6 +142,7 @@ type scenario struct {
 	TNs    int64     `json:"T_ns"`
 	T      string    `json:"T"`
 	Held   bool      `json:"held,omitempty"`    // OPENDIR "/" and OPEN "/f" first
+	Reads  bool      `json:"reads,omitempty"`   // then READ, READCRIT on /f and OPENDIR of the regular file /f (data-transfer and refused-open history)
 	K      int       `json:"k,omitempty"`       // complete STAT requests before the silence / stall
 	GapsNs []int64   `json:"gaps_ns,omitempty"` // client think time before each of the k requests (< T)
 	Pos    int       `json:"pos,omitempty"`     // bytes of the stalled request that are delivered (0 = none)
@@ -314,13 +325,18 @@ func genScenarios(r *rand.Rand, thorough bool) []*scenario {
 				if i > 0 {
 					nn = n/2 + r.Intn(n/2)
 				}
-				add(&scenario{Kind: fmt.Sprintf("active-0.%03dT", pm), DNs: int64(T) / 1000 * pm, N: nn, Path: randPath(r)}, T)
+				sc := &scenario{Kind: fmt.Sprintf("active-0.%03dT", pm), DNs: int64(T) / 1000 * pm, N: nn, Path: randPath(r)}
+				if i%2 == 1 {
+					sc.Kind += "-after-reads"
+					sc.Held, sc.Reads = true, true
+				}
+				add(sc, T)
 			}
 		}
 		// (5) open file and open directory held when the cut happens
 		for i := 0; i < pick(50, 500); i++ {
 			k := r.Intn(4)
-			s := &scenario{Kind: "held-silent", Held: true, K: k, GapsNs: randGaps(r, k, T), Path: randPath(r)}
+			s := &scenario{Kind: "held-silent", Held: true, Reads: i%4 >= 2, K: k, GapsNs: randGaps(r, k, T), Path: randPath(r)}
 			if i%2 == 1 {
 				s.Kind = "held-stall"
 				s.Pos = 1 + r.Intn(16+statPathLen-1)
@@ -571,6 +587,19 @@ func runScenario(t *testing.T, sc *scenario) *outcome {
 		if held := led.opens.Load() - led.closes.Load(); held != 2 {
 			out.trouble = append(out.trouble, fmt.Sprintf("expected 2 handles held after OPENDIR+OPEN, ledger says %d", held))
 			return out
+		}
+		if sc.Reads {
+			for _, rq := range []struct {
+				b []byte
+				n int
+				w string
+			}{{encodeRead(opRead, 100, 0), 104, "READ 100@0"}, {encodeRead(opCrit, 64, 5), 64, "READCRIT 64@5"}, {encode(opOpenDir, "/f"), szOpenDir, "OPENDIR of a regular file"}} {
+				resp, stage, err := x.request(rq.b, rq.n)
+				if err != nil {
+					x.failedRequest(liveRule, rq.w, stage, len(resp), err, 0)
+					return out
+				}
+			}
 		}
 		t0 = time.Now()
 	}
